@@ -6408,7 +6408,13 @@ class HCI_Event(HCI_Packet):
             # Invoke all the registered factories to see if any of them can handle
             # the event
             for vendor_factory in cls.vendor_factories:
-                if event := vendor_factory(parameters):
+                try:
+                    event = vendor_factory(parameters)
+                except Exception as error:
+                    # This factory can't parse the event (truncated?)
+                    logger.debug(f'vendor factory failed: {error}')
+                    continue
+                if event:
                     return event
 
             # No factory, or the factory could not create an instance,
